@@ -675,11 +675,11 @@ fn c11_corpus() -> Vec<(&'static str, &'static str)> {
         ("s1 = sal", "P4:alias="),
         ("arr[0] = arr[0]", "P4:element=element"),
         ("x = arr1[0]", "P4:var=element alias"),
-        // livelock: operator character as the very last character
-        ("1 <", "livelock:<"),
-        ("i1 =", "livelock:="),
-        ("!", "livelock:!"),
-        ("1 >", "livelock:>"),
+        // regression (repaired livelock): operator character as the very last character
+        ("1 <", "regression livelock:<"),
+        ("i1 =", "regression livelock:="),
+        ("!", "regression livelock:!"),
+        ("1 >", "regression livelock:>"),
         ("1 ?", "no livelock: error"),
         ("1 < ", "no livelock: trailing blank"),
         // malformed
@@ -849,6 +849,22 @@ pub fn run(args: &Args, model: &mut Model) -> Report {
             let c = Case::x(&format!("corpus:{}", name), &std_store, text);
             rep.nontrivial.insert(text.to_string());
             check_lex_parse(text, model, &mut rep);
+            let _ = check_case(&cx, &c, model, &mut rep);
+        }
+        // what is left of P4-equal: `==` on two cyclic values, built by expressions alone
+        {
+            let c = Case {
+                origin: "corpus:P4:cyclic==".to_string(),
+                store: std_store.clone(),
+                steps: vec![
+                    Step::X("arr1[0] = arr1".to_string()),
+                    Step::X("y ?= [0]".to_string()),
+                    Step::X("y[0] = y".to_string()),
+                    Step::X("arr1 == y".to_string()),
+                ],
+                chain: None,
+                expect_bool: None,
+            };
             let _ = check_case(&cx, &c, model, &mut rep);
         }
         deep_nesting(&cx, model, &mut rep);
